@@ -3,7 +3,7 @@
    C16 and against the arithmetic of the ImageBuilder model.  One event per public call; the
    specification never blocks: violations of the property (evaluated on OBSERVED values) and
    deviations from the model's prediction are accumulated and printed as one verdict.        *)
-EXTENDS Integers, Sequences, TLC, Json, IOUtils, ImageLaws
+EXTENDS Integers, Sequences, TLC, Json, IOUtils, FiniteSets, ImageLaws
 Rec == ndJsonDeserialize(IOEnv.TRACE)
 StrHdr == 4
 UnitSz == 2
@@ -11,7 +11,8 @@ VARIABLES l, len, slots, viol, drift, nchk
 vars == <<l, len, slots, viol, drift, nchk>>
 E == Rec[l]
 Has(r, f) == f \in DOMAIN r
-Note(cond, seq, tag) == IF cond \/ Len(seq) >= 200 THEN seq ELSE Append(seq, <<l, tag>>)
+NTag(seq, tag) == Cardinality({k \in 1..Len(seq) : seq[k][2] = tag})
+Note(cond, seq, tag) == IF cond \/ NTag(seq, tag) >= 60 THEN seq ELSE Append(seq, <<l, tag>>)
 Init == l = 1 /\ len = 0 /\ slots = <<>> /\ viol = <<>> /\ drift = <<>> /\ nchk = 0
 
 Reset == /\ E.ev = "reset" /\ len' = 0 /\ slots' = <<>> /\ UNCHANGED <<viol, drift, nchk>>
